@@ -1,10 +1,31 @@
 (* C05 — the tie to the source: Header.Valid as translated from v2/header.go on this run (Gen/SrcHeader.v, by
    tools/globalsgen srcgen.go) accepts exactly the headers the model's [header_valid] accepts.  Only statements;
    proofs in Proofs/SrcHeader.v. *)
-From JWT Require Import Base.GoSem Gen.SrcHeader Model.Decode Proofs.SrcHeader.
+From JWT Require Import Base.GoSem Gen.SrcHeader Gen.SrcDecode Model.Decode Proofs.SrcHeader Proofs.SrcDecode.
 Open Scope string_scope.
 
 Theorem C05_source_header_valid : forall typ alg : string,
   V2.Header_Valid alg typ = None <-> header_valid typ alg = true.
 Proof. exact src_header_valid. Qed.
 Print Assumptions C05_source_header_valid.
+
+(* the gate as the code has it: parseHeaders and loadClaims, translated on this run, in terms of the model's steps *)
+Theorem C05_source_parse_headers : forall b64dec parse_header (s : string),
+  src_parse_headers b64dec parse_header s =
+  match b64dec s with
+  | None => (GNil, e1)
+  | Some hj => match parse_header hj with
+               | None => (GNil, e1)
+               | Some (typ, alg) => if header_valid typ alg then (GHeader typ alg, None)
+                                    else (GNil, SrcDecode.V2.Header_Valid alg typ)
+               end
+  end.
+Proof. exact src_parse_headers_spec. Qed.
+Print Assumptions C05_source_parse_headers.
+Theorem C05_source_load_claims : forall parse_ident unmarshal_ok (d : string) (i : ident), parse_ident d = Some i ->
+  match load_claims i (unmarshal_ok d) with
+  | Some (k, ver) => src_load_claims parse_ident unmarshal_ok d = (ver, GClaims k d, None)
+  | None => snd (src_load_claims parse_ident unmarshal_ok d) <> None
+  end.
+Proof. exact src_load_claims_spec. Qed.
+Print Assumptions C05_source_load_claims.
